@@ -1,8 +1,650 @@
 import Cpl.Model.Block
 
-/-! # Helper lemmas about the block evolvers (C10, C05). -/
+/-! # Helper lemmas about the block evolvers (C10, C05).
+Core Lean only (no Mathlib import). Everything lives in `Cpl.Block` to avoid clashes with the other lemma files. -/
 
-namespace Cpl
+namespace Cpl.Block
 open Py
 
-end Cpl
+section chunks
+variable {α : Type}
+
+/-- Number of chunks when the block size divides the length. -/
+theorem chunk_count (b q : Nat) (hb : 1 ≤ b) : (q * b + b - 1) / b = q := by
+  have h : q * b + b - 1 = b * q + (b - 1) := by rw [Nat.mul_comm]; omega
+  rw [h, Nat.mul_add_div (by omega), Nat.div_eq_of_lt (by omega)]; rfl
+
+/-- The chunks of a list of length `q * b` whose `i`-th element is `f i`. -/
+theorem chunks_eq (b q : Nat) (hb : 1 ≤ b) (l : List α) (f : Nat → α) (hl : l.length = q * b)
+    (hf : ∀ i (h : i < l.length), l[i] = f i) :
+    chunks b l = (List.range q).map fun k => (List.range b).map fun j => f (k * b + j) := by
+  unfold chunks
+  rw [hl, chunk_count b q hb]
+  apply List.map_congr_left
+  intro k hk
+  have hk' : k < q := List.mem_range.mp hk
+  have hle : k * b + b ≤ q * b := by
+    have : (k + 1) * b ≤ q * b := Nat.mul_le_mul_right b hk'
+    rw [Nat.add_mul] at this; omega
+  apply List.ext_getElem
+  · simp; omega
+  · intro j h1 h2
+    simp at h1 h2
+    simp [hf]
+
+/-- Blocks `[g (k*b + j) | j < b]`, `k < q`, concatenate to `[g i | i < q*b]`. -/
+theorem flatten_blocks (g : Nat → α) (q b : Nat) :
+    ((List.range q).map fun k => (List.range b).map fun j => g (k * b + j)).flatten
+      = (List.range (q * b)).map g := by
+  induction q with
+  | zero => simp
+  | succ q ih =>
+    rw [List.range_succ, List.map_append, List.flatten_append, ih, Nat.add_mul, Nat.one_mul,
+      List.range_add]
+    simp [List.map_map, Function.comp_def]
+
+end chunks
+
+theorem blockIndicesOdd_eq (N b : Nat) (hb : 1 ≤ b) (hdiv : N % b = 0) :
+    blockIndicesOdd N b = (List.range (N / b)).map fun k => (List.range b).map fun j => k * b + j := by
+  unfold blockIndicesOdd
+  have hN : N = N / b * b := by
+    have := Nat.div_add_mod N b; rw [hdiv, Nat.mul_comm] at this; omega
+  exact chunks_eq b (N / b) hb (List.range N) (fun i => i) (by simpa using hN) (by simp)
+
+theorem rotated_cons (n : Nat) :
+    ((List.range (n + 1)).getLast?.toList ++ (List.range (n + 1)).dropLast) = n :: List.range n := by
+  rw [List.range_succ]
+  simp only [List.getLast?_append, List.getLast?_singleton, Option.some_or, Option.toList_some,
+    List.dropLast_concat]
+  rfl
+
+/-- The rotated index list `[N-1, 0, 1, …, N-2]`. -/
+theorem rotated_eq (N : Nat) :
+    ((List.range N).getLast?.toList ++ (List.range N).dropLast)
+      = (List.range N).map fun i => (i + N - 1) % N := by
+  cases N with
+  | zero => simp
+  | succ n =>
+    rw [rotated_cons]
+    apply List.ext_getElem
+    · simp
+    · intro i h1 h2
+      simp at h1
+      cases i with
+      | zero => simp
+      | succ i =>
+        simp
+        have : i + 1 + n = i + (n + 1) := by omega
+        rw [this, Nat.add_mod_right, Nat.mod_eq_of_lt (by omega)]
+
+theorem blockIndicesEven_eq (N b : Nat) (hb : 1 ≤ b) (hdiv : N % b = 0) :
+    blockIndicesEven N b
+      = (List.range (N / b)).map fun k => (List.range b).map fun j => (k * b + j + N - 1) % N := by
+  unfold blockIndicesEven
+  have hN : N = N / b * b := by
+    have := Nat.div_add_mod N b; rw [hdiv, Nat.mul_comm] at this; omega
+  simp only [rotated_eq]
+  exact chunks_eq b (N / b) hb _ (fun i => (i + N - 1) % N) (by simpa using hN) (by simp)
+
+theorem rotated_perm (N : Nat) : ((List.range N).map fun i => (i + N - 1) % N).Perm (List.range N) := by
+  rw [← rotated_eq]
+  cases N with
+  | zero => simp
+  | succ n =>
+    rw [rotated_cons, List.range_succ]
+    exact List.perm_append_comm (l₁ := [n])
+
+theorem blockIndicesOdd_flatten (N b : Nat) (hb : 1 ≤ b) (hdiv : N % b = 0) :
+    (blockIndicesOdd N b).flatten = List.range N := by
+  have hN : N / b * b = N := by
+    have := Nat.div_add_mod N b; rw [hdiv, Nat.mul_comm] at this; omega
+  rw [blockIndicesOdd_eq N b hb hdiv, flatten_blocks (fun i => i), hN]; simp
+
+theorem blockIndicesEven_flatten (N b : Nat) (hb : 1 ≤ b) (hdiv : N % b = 0) :
+    (blockIndicesEven N b).flatten = (List.range N).map fun i => (i + N - 1) % N := by
+  have hN : N / b * b = N := by
+    have := Nat.div_add_mod N b; rw [hdiv, Nat.mul_comm] at this; omega
+  rw [blockIndicesEven_eq N b hb hdiv, flatten_blocks (fun i => (i + N - 1) % N), hN]
+
+section writes
+variable {σ α : Type}
+
+@[simp] theorem length_writeZip (arr : List α) (idx : List Nat) (vals : List α) :
+    (writeZip arr idx vals).length = arr.length := by
+  induction idx generalizing arr vals with
+  | nil => simp [writeZip]
+  | cons i is ih =>
+    cases vals with
+    | nil => simp [writeZip]
+    | cons v vs => simp [writeZip, ih]
+
+theorem writeZip_append (arr : List α) (is1 is2 : List Nat) (vs1 vs2 : List α)
+    (h : vs1.length = is1.length) :
+    writeZip arr (is1 ++ is2) (vs1 ++ vs2) = writeZip (writeZip arr is1 vs1) is2 vs2 := by
+  induction is1 generalizing arr vs1 with
+  | nil =>
+    have : vs1 = [] := List.length_eq_zero_iff.mp (by simpa using h)
+    subst this
+    cases is2 <;> cases vs2 <;> simp [writeZip]
+  | cons i is ih =>
+    cases vs1 with
+    | nil => simp at h
+    | cons v vs =>
+      simp only [List.cons_append, writeZip]
+      exact ih _ _ (by simpa using h)
+
+/-- Writes along `idx` never touch an index outside `idx`. -/
+theorem writeZip_getElem?_of_not_mem (arr : List α) (idx : List Nat) (vals : List α) (i : Nat)
+    (hi : i ∉ idx) : (writeZip arr idx vals)[i]? = arr[i]? := by
+  induction idx generalizing arr vals with
+  | nil => simp [writeZip]
+  | cons j js ih =>
+    cases vals with
+    | nil => simp [writeZip]
+    | cons v vs =>
+      simp only [writeZip]
+      rw [ih _ _ (fun h => hi (List.mem_cons_of_mem _ h))]
+      exact List.getElem?_set_ne (fun h => hi (by subst h; exact List.mem_cons_self))
+
+/-- Sequential `arr[i] = v` along a duplicate-free index list: reading back along the index list
+    returns the written values. -/
+theorem map_writeZip [Inhabited α] (idx : List Nat) (hnd : idx.Nodup) (arr vals : List α)
+    (hl : vals.length = idx.length) (hlt : ∀ i ∈ idx, i < arr.length) :
+    idx.map (fun i => (writeZip arr idx vals)[i]!) = vals := by
+  induction idx generalizing arr vals with
+  | nil =>
+    have : vals = [] := List.length_eq_zero_iff.mp (by simpa using hl)
+    simp [this]
+  | cons i is ih =>
+    cases vals with
+    | nil => simp at hl
+    | cons v vs =>
+      have hnd' := List.nodup_cons.mp hnd
+      simp only [writeZip, List.map_cons]
+      congr 1
+      · rw [List.getElem!_eq_getElem?_getD, writeZip_getElem?_of_not_mem _ _ _ _ hnd'.1,
+          List.getElem?_set_self (hlt i (by simp))]
+        rfl
+      · exact ih hnd'.2 _ _ (by simpa using hl)
+          (fun j hj => by simpa using hlt j (List.mem_cons_of_mem _ hj))
+
+/-- Scatter along a permutation of `0 .. N-1`: length, read-back, and `Perm` with the values. -/
+theorem scatter_spec [Inhabited α] (N : Nat) (p : List Nat) (hp : p.Perm (List.range N))
+    (arr vals : List α) (harr : arr.length = N) (hv : vals.length = p.length) :
+    (writeZip arr p vals).length = N ∧
+    p.map (fun i => (writeZip arr p vals)[i]!) = vals ∧
+    (writeZip arr p vals).Perm vals := by
+  have hnd : p.Nodup := hp.nodup_iff.mpr List.nodup_range
+  have hlt : ∀ i ∈ p, i < arr.length := fun i hi => by
+    rw [harr]; exact List.mem_range.mp (hp.mem_iff.mp hi)
+  have hmap := map_writeZip p hnd arr vals hv hlt
+  refine ⟨by simp [harr], hmap, ?_⟩
+  have hout : (List.range N).map (fun i => (writeZip arr p vals)[i]!) = writeZip arr p vals := by
+    apply List.ext_getElem
+    · simp [harr]
+    · intro i h1 h2
+      simp at h1 h2
+      simp [h2]
+  rw [← hout]
+  conv => rhs; rw [← hmap]
+  exact (hp.map _).symm
+
+/-- Gathering along a permutation of `0 .. N-1` is a permutation of the list. -/
+theorem gather_perm [Inhabited α] (p : List Nat) (cells : List α) (hp : p.Perm (List.range cells.length)) :
+    (p.map fun i => cells[i]!).Perm cells := by
+  have hout : (List.range cells.length).map (fun i => cells[i]!) = cells := by
+    apply List.ext_getElem
+    · simp
+    · intro i h1 h2
+      simp at h1
+      simp [h1]
+  conv => rhs; rw [← hout]
+  exact hp.map _
+
+/-- Two lists agreeing at all indices of a permutation of `0 .. N-1` are equal. -/
+theorem eq_of_gather_eq [Inhabited α] (N : Nat) (p : List Nat) (hp : p.Perm (List.range N)) (l1 l2 : List α)
+    (h1 : l1.length = N) (h2 : l2.length = N)
+    (h : p.map (fun i => l1[i]!) = p.map (fun i => l2[i]!)) : l1 = l2 := by
+  apply List.ext_getElem (by omega)
+  intro i hi1 hi2
+  have hmem : i ∈ p := hp.mem_iff.mpr (List.mem_range.mpr (by omega))
+  have := List.map_inj_left.mp h i hmem
+  simpa [hi1, hi2] using this
+
+/-- Lists of lists with the same block lengths and the same concatenation are equal. -/
+theorem eq_of_flatten_eq {β : Type} : ∀ (L1 L2 : List (List β)),
+    L1.map List.length = L2.map List.length → L1.flatten = L2.flatten → L1 = L2
+  | [], [], _, _ => rfl
+  | [], _ :: _, h, _ => by simp at h
+  | _ :: _, [], h, _ => by simp at h
+  | a :: L1, c :: L2, h, hf => by
+    simp only [List.map_cons, List.cons.injEq] at h
+    simp only [List.flatten_cons] at hf
+    have := List.append_inj hf h.1
+    rw [this.1, eq_of_flatten_eq L1 L2 h.2 this.2]
+
+end writes
+
+section sweep
+variable {σ α : Type}
+
+/-- The rule consulted once per block, in block order (state threaded); results in block order.
+    (Twin of `C10.blockResults`.) -/
+def sweepResults [Inhabited α] (rule : BlockRule1 σ α) (cells : List α) (t : Nat) :
+    List (List Nat) → σ → List (List α) × σ
+  | [], s => ([], s)
+  | stride :: rest, s =>
+    let (res, s1) := rule s (stride.map fun i => cells[i]!) t
+    let (rs, s2) := sweepResults rule cells t rest s1
+    (res :: rs, s2)
+
+/-- The partition used at step `t`. (Twin of `C10.stridesAt`.) -/
+def stepStrides (N b t : Nat) : List (List Nat) :=
+  if t % 2 = 0 then blockIndicesEven N b else blockIndicesOdd N b
+
+theorem sweepResults_lengths [Inhabited α] (rule : BlockRule1 σ α) (cells : List α) (t : Nat)
+    (strides : List (List Nat)) (s : σ)
+    (hres : ∀ s', ∀ stride ∈ strides, (rule s' (stride.map fun i => cells[i]!) t).1.length = stride.length) :
+    (sweepResults rule cells t strides s).1.map List.length = strides.map List.length := by
+  induction strides generalizing s with
+  | nil => simp [sweepResults]
+  | cons st rest ih =>
+    simp only [sweepResults, List.map_cons]
+    rw [ih _ (fun s' x hx => hres s' x (List.mem_cons_of_mem _ hx)), hres s st List.mem_cons_self]
+
+/-- The sweep is a single scatter of the concatenated results along the concatenated partition. -/
+theorem blockSweep1_eq [Inhabited α] (rule : BlockRule1 σ α) (cells : List α) (t : Nat)
+    (strides : List (List Nat)) (arr : List α) (s : σ)
+    (hres : ∀ s', ∀ stride ∈ strides, (rule s' (stride.map fun i => cells[i]!) t).1.length = stride.length) :
+    blockSweep1 rule cells t strides arr s
+      = (writeZip arr strides.flatten (sweepResults rule cells t strides s).1.flatten,
+         (sweepResults rule cells t strides s).2) := by
+  induction strides generalizing arr s with
+  | nil => simp [blockSweep1, sweepResults, writeZip]
+  | cons st rest ih =>
+    simp only [blockSweep1, sweepResults, List.flatten_cons]
+    rw [ih _ _ (fun s' x hx => hres s' x (List.mem_cons_of_mem _ hx)),
+      writeZip_append _ _ _ _ _ (hres s st List.mem_cons_self)]
+
+/-- Blockwise permutation lifts to the concatenation. -/
+theorem sweepResults_perm [Inhabited α] (rule : BlockRule1 σ α) (cells : List α) (t : Nat)
+    (strides : List (List Nat)) (s : σ)
+    (hperm : ∀ s' blk t', (rule s' blk t').1.Perm blk) :
+    (sweepResults rule cells t strides s).1.flatten.Perm (strides.flatten.map fun i => cells[i]!) := by
+  induction strides generalizing s with
+  | nil => simp [sweepResults]
+  | cons st rest ih =>
+    simp only [sweepResults, List.flatten_cons, List.map_append]
+    exact (hperm _ _ _).append (ih _)
+
+theorem stepStrides_perm (N b t : Nat) (hb : 1 ≤ b) (hdiv : N % b = 0) :
+    (stepStrides N b t).flatten.Perm (List.range N) := by
+  unfold stepStrides
+  split
+  · rw [blockIndicesEven_flatten N b hb hdiv]; exact rotated_perm N
+  · rw [blockIndicesOdd_flatten N b hb hdiv]
+
+theorem stepStrides_length (N b t : Nat) (hb : 1 ≤ b) (hdiv : N % b = 0) :
+    ∀ st ∈ stepStrides N b t, st.length = b := by
+  unfold stepStrides
+  split
+  · rw [blockIndicesEven_eq N b hb hdiv]; intro st hst; simp at hst; obtain ⟨k, _, rfl⟩ := hst; simp
+  · rw [blockIndicesOdd_eq N b hb hdiv]; intro st hst; simp at hst; obtain ⟨k, _, rfl⟩ := hst; simp
+
+/-- One block step, as a scatter: final state, length, blockwise read-back and `Perm` with the results
+    (result lengths only required on the blocks actually met). -/
+theorem blockStep1_eq' [Inhabited α] (rule : BlockRule1 σ α) (b : Nat) (cells : List α) (t : Nat) (s : σ)
+    (hb : 1 ≤ b) (hdiv : cells.length % b = 0)
+    (hres' : ∀ s', ∀ stride ∈ stepStrides cells.length b t,
+      (rule s' (stride.map fun i => cells[i]!) t).1.length = stride.length) :
+    (blockStep1 rule b cells t s).2 = (sweepResults rule cells t (stepStrides cells.length b t) s).2 ∧
+    (blockStep1 rule b cells t s).1.length = cells.length ∧
+    (stepStrides cells.length b t).map (fun st => st.map fun i => (blockStep1 rule b cells t s).1[i]!)
+      = (sweepResults rule cells t (stepStrides cells.length b t) s).1 ∧
+    (blockStep1 rule b cells t s).1.Perm (sweepResults rule cells t (stepStrides cells.length b t) s).1.flatten := by
+  have hstep : blockStep1 rule b cells t s
+      = blockSweep1 rule cells t (stepStrides cells.length b t) (List.replicate cells.length default) s := rfl
+  rw [hstep, blockSweep1_eq _ _ _ _ _ _ hres']
+  have hls := sweepResults_lengths rule cells t _ s hres'
+  have hv : (sweepResults rule cells t (stepStrides cells.length b t) s).1.flatten.length
+      = (stepStrides cells.length b t).flatten.length := by
+    simp only [List.length_flatten, hls]
+  obtain ⟨h1, h2, h3⟩ := scatter_spec cells.length _ (stepStrides_perm cells.length b t hb hdiv)
+    (List.replicate cells.length (default : α)) _ (by simp) hv
+  refine ⟨rfl, h1, ?_, h3⟩
+  apply eq_of_flatten_eq
+  · rw [hls]; simp [List.map_map, Function.comp_def]
+  · exact List.map_flatten.symm.trans h2
+
+theorem blockStep1_eq [Inhabited α] (rule : BlockRule1 σ α) (b : Nat) (cells : List α) (t : Nat) (s : σ)
+    (hb : 1 ≤ b) (hdiv : cells.length % b = 0)
+    (hres : ∀ s' blk, blk.length = b → (rule s' blk t).1.length = b) :
+    (blockStep1 rule b cells t s).2 = (sweepResults rule cells t (stepStrides cells.length b t) s).2 ∧
+    (blockStep1 rule b cells t s).1.length = cells.length ∧
+    (stepStrides cells.length b t).map (fun st => st.map fun i => (blockStep1 rule b cells t s).1[i]!)
+      = (sweepResults rule cells t (stepStrides cells.length b t) s).1 ∧
+    (blockStep1 rule b cells t s).1.Perm (sweepResults rule cells t (stepStrides cells.length b t) s).1.flatten := by
+  have hlen := stepStrides_length cells.length b t hb hdiv
+  apply blockStep1_eq' rule b cells t s hb hdiv
+  intro s' st hst
+  rw [hres s' _ (by simp [hlen st hst]), hlen st hst]
+
+end sweep
+
+section laws
+variable {σ α : Type}
+
+/-- Conservation: a rule that permutes inside blocks conserves the multiset of states. -/
+theorem blockStep1_perm [Inhabited α] (rule : BlockRule1 σ α) (b : Nat) (cells : List α) (t : Nat) (s : σ)
+    (hb : 1 ≤ b) (hdiv : cells.length % b = 0)
+    (hperm : ∀ s' blk t', (rule s' blk t').1.Perm blk) :
+    (blockStep1 rule b cells t s).1.Perm cells := by
+  obtain ⟨_, _, _, h⟩ := blockStep1_eq rule b cells t s hb hdiv
+    (fun s' blk hl => by rw [(hperm s' blk t).length_eq, hl])
+  exact h.trans ((sweepResults_perm rule cells t _ s hperm).trans
+    (gather_perm _ cells (stepStrides_perm cells.length b t hb hdiv)))
+
+theorem sweepResults_unit [Inhabited α] (h : List α → Nat → List α) (cells : List α) (t : Nat)
+    (strides : List (List Nat)) :
+    sweepResults (fun (u : Unit) blk t' => (h blk t', u)) cells t strides ()
+      = (strides.map fun st => h (st.map fun i => cells[i]!) t, ()) := by
+  induction strides with
+  | nil => rfl
+  | cons st rest ih => simp only [sweepResults, ih, List.map_cons]
+
+/-- Reversibility of one block step. -/
+theorem blockStep1_reversible [Inhabited α] (f g : List α → Nat → List α) (b : Nat) (cells : List α) (t : Nat)
+    (hb : 1 ≤ b) (hdiv : cells.length % b = 0)
+    (hf : ∀ blk t', blk.length = b → (f blk t').length = b)
+    (hgf : ∀ blk t', blk.length = b → g (f blk t') t' = blk) :
+    (blockStep1 (fun (u : Unit) blk t' => (g blk t', u)) b
+        (blockStep1 (fun (u : Unit) blk t' => (f blk t', u)) b cells t ()).1 t ()).1 = cells := by
+  have hlenS := stepStrides_length cells.length b t hb hdiv
+  obtain ⟨_, hl1, hr1, _⟩ := blockStep1_eq (fun (u : Unit) blk t' => (f blk t', u)) b cells t () hb hdiv
+    (fun _ blk hl => hf blk t hl)
+  generalize (blockStep1 (fun (u : Unit) blk t' => (f blk t', u)) b cells t ()).1 = out1 at *
+  rw [sweepResults_unit] at hr1
+  have hr1' := List.map_inj_left.mp hr1
+  have hdiv1 : out1.length % b = 0 := by rw [hl1]; exact hdiv
+  have hblk : ∀ st ∈ stepStrides cells.length b t,
+      g (st.map fun i => out1[i]!) t = st.map fun i => cells[i]! := by
+    intro st hst
+    rw [hr1' st hst]
+    exact hgf _ t (by simp [hlenS st hst])
+  obtain ⟨_, hl2, hr2, _⟩ := blockStep1_eq' (fun (u : Unit) blk t' => (g blk t', u)) b out1 t () hb hdiv1
+    (by
+      intro _ st hst
+      rw [hl1] at hst
+      simp only [hblk st hst, List.length_map])
+  generalize (blockStep1 (fun (u : Unit) blk t' => (g blk t', u)) b out1 t ()).1 = out2 at *
+  rw [sweepResults_unit, hl1] at hr2
+  have hr2' : (stepStrides cells.length b t).map (fun st => st.map fun i => out2[i]!)
+      = (stepStrides cells.length b t).map (fun st => st.map fun i => cells[i]!) := by
+    rw [hr2]
+    exact List.map_congr_left hblk
+  have hflat := congrArg List.flatten hr2'
+  rw [← List.map_flatten, ← List.map_flatten] at hflat
+  exact eq_of_gather_eq cells.length _ (stepStrides_perm cells.length b t hb hdiv) out2 cells
+    (by omega) rfl hflat
+
+end laws
+
+section loop
+variable {σ α : Type}
+
+theorem blockSweep1_length [Inhabited α] (rule : BlockRule1 σ α) (cells : List α) (t : Nat)
+    (strides : List (List Nat)) (arr : List α) (s : σ) :
+    (blockSweep1 rule cells t strides arr s).1.length = arr.length := by
+  induction strides generalizing arr s with
+  | nil => rfl
+  | cons st rest ih => simp only [blockSweep1, ih, length_writeZip]
+
+theorem blockStep1_length [Inhabited α] (rule : BlockRule1 σ α) (b : Nat) (cells : List α) (t : Nat) (s : σ) :
+    (blockStep1 rule b cells t s).1.length = cells.length := by
+  simp [blockStep1, blockSweep1_length]
+
+theorem blockLoop1_length [Inhabited α] (rule : BlockRule1 σ α) (b k t : Nat) (cells : List α) (s : σ) :
+    (blockLoop1 rule b k t cells s).1.length = k := by
+  induction k generalizing t cells s with
+  | zero => rfl
+  | succ k ih => simp only [blockLoop1, List.length_cons, ih]
+
+theorem blockLoop1_row_length [Inhabited α] (rule : BlockRule1 σ α) (b k t : Nat) (cells : List α) (s : σ) :
+    ∀ row ∈ (blockLoop1 rule b k t cells s).1, row.length = cells.length := by
+  induction k generalizing t cells s with
+  | zero => intro row h; simp [blockLoop1] at h
+  | succ k ih =>
+    intro row h
+    simp only [blockLoop1, List.mem_cons] at h
+    rcases h with h | h
+    · rw [h, blockStep1_length]
+    · rw [ih _ _ _ row h, blockStep1_length]
+
+/-- The loop composes. -/
+theorem blockLoop1_add [Inhabited α] (rule : BlockRule1 σ α) (b k1 k2 t : Nat) (cells : List α) (s : σ) :
+    blockLoop1 rule b (k1 + k2) t cells s
+      = ((blockLoop1 rule b k1 t cells s).1
+          ++ (blockLoop1 rule b k2 (t + k1) ((blockLoop1 rule b k1 t cells s).1.getLast?.getD cells)
+              (blockLoop1 rule b k1 t cells s).2).1,
+         (blockLoop1 rule b k2 (t + k1) ((blockLoop1 rule b k1 t cells s).1.getLast?.getD cells)
+              (blockLoop1 rule b k1 t cells s).2).2) := by
+  induction k1 generalizing t cells s with
+  | zero => simp [blockLoop1]
+  | succ k ih =>
+    have h : k + 1 + k2 = (k + k2) + 1 := by omega
+    rw [h]
+    simp only [blockLoop1]
+    rw [ih]
+    have ht : t + 1 + k = t + (k + 1) := by omega
+    rw [ht]
+    simp only [List.cons_append, List.getLast?_cons, Option.getD_some]
+
+theorem blockSweep1_timefree [Inhabited α] (rule : BlockRule1 σ α)
+    (htf : ∀ s blk t t', rule s blk t = rule s blk t') (cells : List α) (t t' : Nat)
+    (strides : List (List Nat)) (arr : List α) (s : σ) :
+    blockSweep1 rule cells t strides arr s = blockSweep1 rule cells t' strides arr s := by
+  induction strides generalizing arr s with
+  | nil => rfl
+  | cons st rest ih => simp only [blockSweep1]; rw [htf _ _ t t', ih]
+
+/-- For a time-free rule a step depends on `t` through its parity only. -/
+theorem blockStep1_parity [Inhabited α] (rule : BlockRule1 σ α)
+    (htf : ∀ s blk t t', rule s blk t = rule s blk t') (b : Nat) (cells : List α) (t t' : Nat)
+    (hpar : t % 2 = t' % 2) (s : σ) :
+    blockStep1 rule b cells t s = blockStep1 rule b cells t' s := by
+  simp only [blockStep1, hpar]
+  exact blockSweep1_timefree rule htf _ _ _ _ _ _
+
+theorem blockLoop1_parity [Inhabited α] (rule : BlockRule1 σ α)
+    (htf : ∀ s blk t t', rule s blk t = rule s blk t') (b k : Nat) (cells : List α) (t t' : Nat)
+    (hpar : t % 2 = t' % 2) (s : σ) :
+    blockLoop1 rule b k t cells s = blockLoop1 rule b k t' cells s := by
+  induction k generalizing t t' cells s with
+  | zero => rfl
+  | succ k ih =>
+    simp only [blockLoop1]
+    rw [blockStep1_parity rule htf b cells t t' hpar, ih _ (t + 1) (t' + 1) (by omega)]
+
+end loop
+
+section evolve
+variable {σ α : Type}
+
+theorem evolveBlock_ok [Inhabited α] (hist : List (List α)) (init : List α) (hlast : hist.getLast? = some init)
+    (b T : Nat) (hb : 1 ≤ b) (hT : 1 ≤ T) (hdiv : init.length % b = 0) (rule : BlockRule1 σ α) (s : σ) :
+    evolveBlock hist b T rule s
+      = .ok (hist ++ (blockLoop1 rule b (T - 1) 1 init s).1, (blockLoop1 rule b (T - 1) 1 init s).2) := by
+  unfold evolveBlock
+  rw [hlast]
+  simp only
+  rw [if_neg (by omega), if_neg (by simp [hdiv]), if_neg (by omega)]
+
+theorem evolveBlock_reject [Inhabited α] (hist : List (List α)) (init : List α) (hlast : hist.getLast? = some init)
+    (b T : Nat) (hb : 1 ≤ b) (hdiv : init.length % b ≠ 0) (rule : BlockRule1 σ α) (s : σ) :
+    evolveBlock hist b T rule s = .error .Exception := by
+  unfold evolveBlock
+  rw [hlast]
+  simp only
+  rw [if_neg (by omega), if_pos hdiv]
+
+/-- Split law for odd `T1`. -/
+theorem evolveBlock_split_odd' [Inhabited α] (rule : BlockRule1 σ α)
+    (htf : ∀ s blk t t', rule s blk t = rule s blk t')
+    (hist : List (List α)) (init : List α) (hlast : hist.getLast? = some init) (b T1 T2 : Nat) (hb : 1 ≤ b)
+    (hdiv : init.length % b = 0) (hodd : T1 % 2 = 1) (hT2 : 1 ≤ T2)
+    (s s1 : σ) (mid : List (List α)) (hmid : evolveBlock hist b T1 rule s = .ok (mid, s1)) :
+    evolveBlock mid b T2 rule s1 = evolveBlock hist b (T1 + T2 - 1) rule s := by
+  have hT1 : 1 ≤ T1 := by omega
+  rw [evolveBlock_ok hist init hlast b T1 hb hT1 hdiv] at hmid
+  injection hmid with hmid
+  injection hmid with hm hs
+  subst hm hs
+  have hlastm : (hist ++ (blockLoop1 rule b (T1 - 1) 1 init s).1).getLast?
+      = some ((blockLoop1 rule b (T1 - 1) 1 init s).1.getLast?.getD init) := by
+    rw [List.getLast?_append, hlast]
+    cases (blockLoop1 rule b (T1 - 1) 1 init s).1.getLast? <;> rfl
+  have hlen : ((blockLoop1 rule b (T1 - 1) 1 init s).1.getLast?.getD init).length = init.length := by
+    cases h : (blockLoop1 rule b (T1 - 1) 1 init s).1.getLast? with
+    | none => rfl
+    | some r => exact blockLoop1_row_length rule b _ _ init s r (List.mem_of_getLast? h)
+  rw [evolveBlock_ok _ _ hlastm b T2 hb hT2 (by rw [hlen]; exact hdiv),
+    evolveBlock_ok hist init hlast b (T1 + T2 - 1) hb (by omega) hdiv]
+  have hk : T1 + T2 - 1 - 1 = (T1 - 1) + (T2 - 1) := by omega
+  rw [hk, blockLoop1_add]
+  have h1 : 1 + (T1 - 1) = T1 := by omega
+  rw [h1, blockLoop1_parity rule htf b (T2 - 1) _ T1 1 (by omega), List.append_assoc]
+
+end evolve
+
+section twoD
+
+theorem div_mul_of_mod (N b : Nat) (hdiv : N % b = 0) : N / b * b = N := by
+  have := Nat.div_add_mod N b; rw [hdiv, Nat.mul_comm] at this; omega
+
+theorem chunk_count' (N b : Nat) (hb : 1 ≤ b) (hdiv : N % b = 0) : (N + b - 1) / b = N / b := by
+  have := chunk_count b (N / b) hb
+  rwa [div_mul_of_mod N b hdiv] at this
+
+theorem blockIndices2Odd_eq (R C b0 b1 : Nat) (h0 : 1 ≤ b0) (h1 : 1 ≤ b1) (hR : R % b0 = 0) (hC : C % b1 = 0) :
+    blockIndices2Odd R C b0 b1
+      = (List.range (R / b0)).flatMap (fun i => (List.range (C / b1)).map fun j =>
+          ((List.range b0).map (i * b0 + ·), (List.range b1).map (j * b1 + ·))) := by
+  unfold blockIndices2Odd
+  rw [chunk_count' R b0 h0 hR, chunk_count' C b1 h1 hC]
+
+theorem blockIndices2Even_eq (R C b0 b1 : Nat) (h0 : 1 ≤ b0) (h1 : 1 ≤ b1) (hR : R % b0 = 0) (hC : C % b1 = 0) :
+    blockIndices2Even R C b0 b1
+      = (List.range (R / b0)).flatMap (fun i => (List.range (C / b1)).map fun j =>
+          ((List.range b0).map (fun a => (i * b0 + a + 1) % R), (List.range b1).map (fun a => (j * b1 + a + 1) % C))) := by
+  unfold blockIndices2Even
+  rw [blockIndices2Odd_eq R C b0 b1 h0 h1 hR hC]
+  simp [List.map_flatMap, List.map_map, Function.comp_def]
+
+/-- Cartesian product in row-major order. -/
+def prodList (l1 l2 : List Nat) : List (Nat × Nat) := l1.flatMap fun i => l2.map fun j => (i, j)
+
+theorem cellsRowMajor_eq (R C : Nat) : cellsRowMajor R C = prodList (List.range R) (List.range C) := rfl
+
+theorem perm_flatMap_left {β γ : Type} (l : List β) (f g : β → List γ) (h : ∀ a ∈ l, (f a).Perm (g a)) :
+    (l.flatMap f).Perm (l.flatMap g) := by
+  induction l with
+  | nil => simp
+  | cons a l ih =>
+    simp only [List.flatMap_cons]
+    exact (h a List.mem_cons_self).append (ih fun x hx => h x (List.mem_cons_of_mem _ hx))
+
+theorem prodList_perm {l1 l1' l2 l2' : List Nat} (h1 : l1.Perm l1') (h2 : l2.Perm l2') :
+    (prodList l1 l2).Perm (prodList l1' l2') := by
+  unfold prodList
+  exact (perm_flatMap_left l1 _ _ fun a _ => h2.map _).trans (h1.flatMap_right _)
+
+theorem prodList_append_right (l c1 c2 : List Nat) :
+    (prodList l (c1 ++ c2)).Perm (prodList l c1 ++ prodList l c2) := by
+  induction l with
+  | nil => simp [prodList]
+  | cons i l ih =>
+    simp only [prodList, List.flatMap_cons, List.map_append] at ih ⊢
+    rw [List.append_assoc, List.append_assoc]
+    refine (List.perm_append_left_iff _).mpr ?_
+    refine ((List.perm_append_left_iff _).mpr ih).trans ?_
+    rw [← List.append_assoc, ← List.append_assoc]
+    exact List.perm_append_comm.append_right _
+
+theorem prodList_flatten_right (l : List Nat) (cb : List (List Nat)) :
+    (cb.flatMap (prodList l)).Perm (prodList l cb.flatten) := by
+  induction cb with
+  | nil => simp [prodList]
+  | cons c cb ih =>
+    simp only [List.flatMap_cons, List.flatten_cons]
+    exact ((List.perm_append_left_iff _).mpr ih).trans (prodList_append_right l c cb.flatten).symm
+
+theorem prodList_flatten_left (rb : List (List Nat)) (c : List Nat) :
+    rb.flatMap (fun ri => prodList ri c) = prodList rb.flatten c := by
+  induction rb with
+  | nil => simp [prodList]
+  | cons r rb ih =>
+    simp only [List.flatMap_cons, List.flatten_cons, ih]
+    simp [prodList, List.flatMap_append]
+
+/-- Tiles whose row blocks partition `0 .. R-1` and column blocks partition `0 .. C-1` cover the grid once. -/
+theorem tiles_perm (rb cb : List (List Nat)) (R C : Nat)
+    (hr : rb.flatten.Perm (List.range R)) (hc : cb.flatten.Perm (List.range C)) :
+    (rb.flatMap fun ri => cb.flatMap fun ci => prodList ri ci).Perm (cellsRowMajor R C) := by
+  rw [cellsRowMajor_eq]
+  refine (perm_flatMap_left rb _ _ fun ri _ => prodList_flatten_right ri cb).trans ?_
+  rw [prodList_flatten_left]
+  exact prodList_perm hr hc
+
+theorem tiles_flatMap (A B : Nat → List Nat) (qR qC : Nat) :
+    ((List.range qR).flatMap fun i => (List.range qC).map fun j => (A i, B j)).flatMap
+        (fun p => prodList p.1 p.2)
+      = ((List.range qR).map A).flatMap fun ri => ((List.range qC).map B).flatMap fun ci => prodList ri ci := by
+  simp [List.flatMap_assoc, List.flatMap_map]
+
+/-- The cyclic shift by `+1` is a permutation of `0 .. R-1`. -/
+theorem shift_perm (R : Nat) : ((List.range R).map fun x => (x + 1) % R).Perm (List.range R) := by
+  cases R with
+  | zero => simp
+  | succ n =>
+    have h : (List.range (n + 1)).map (fun x => (x + 1) % (n + 1)) = (List.range n).map Nat.succ ++ [0] := by
+      rw [List.range_succ, List.map_append]
+      congr 1
+      · apply List.map_congr_left
+        intro x hx
+        have := List.mem_range.mp hx
+        exact Nat.mod_eq_of_lt (by omega)
+      · simp
+    rw [h, List.range_succ_eq_map]
+    exact List.perm_append_comm (l₂ := [0])
+
+theorem blocks2_partition' (R C b0 b1 : Nat) (h0 : 1 ≤ b0) (h1 : 1 ≤ b1) (hR : R % b0 = 0) (hC : C % b1 = 0) :
+    ((blockIndices2Odd R C b0 b1).flatMap fun p => prodList p.1 p.2).Perm (cellsRowMajor R C) ∧
+    ((blockIndices2Even R C b0 b1).flatMap fun p => prodList p.1 p.2).Perm (cellsRowMajor R C) := by
+  constructor
+  · rw [blockIndices2Odd_eq R C b0 b1 h0 h1 hR hC,
+      tiles_flatMap (fun i => (List.range b0).map (i * b0 + ·)) (fun j => (List.range b1).map (j * b1 + ·))]
+    apply tiles_perm
+    · rw [flatten_blocks (fun x => x), div_mul_of_mod R b0 hR]; simp
+    · rw [flatten_blocks (fun x => x), div_mul_of_mod C b1 hC]; simp
+  · rw [blockIndices2Even_eq R C b0 b1 h0 h1 hR hC,
+      tiles_flatMap (fun i => (List.range b0).map (fun a => (i * b0 + a + 1) % R))
+        (fun j => (List.range b1).map (fun a => (j * b1 + a + 1) % C))]
+    apply tiles_perm
+    · rw [flatten_blocks (fun x => (x + 1) % R), div_mul_of_mod R b0 hR]; exact shift_perm R
+    · rw [flatten_blocks (fun x => (x + 1) % C), div_mul_of_mod C b1 hC]; exact shift_perm C
+
+variable {σ α : Type}
+
+theorem evolve2dBlock_reject' [Inhabited α] (hist : List (Grid α)) (init : Grid α) (hlast : hist.getLast? = some init)
+    (b0 b1 T : Nat) (h0 : 1 ≤ b0) (h1 : 1 ≤ b1) (hT : 1 ≤ T) (rule : BlockRule2 σ α) (s : σ)
+    (hnd : init.length % b0 ≠ 0 ∨ gridCols init % b1 ≠ 0) :
+    evolve2dBlock hist b0 b1 T rule s = .error .Exception := by
+  unfold evolve2dBlock
+  rw [hlast]
+  simp only
+  rw [if_neg (by omega), if_neg (by omega), if_pos hnd]
+
+end twoD
+
+end Cpl.Block
